@@ -13,12 +13,12 @@ OPS_GROW = ['push_back_c', 'push_back_m', 'emplace_back', 'insert_c', 'insert_m'
             'insert_il', 'resize', 'resize_v', 'assign_n', 'assign_range', 'assign_il', 'assign_op_il', 'reserve',
             'append_range', 'append_il']
 OPS_STRONG = ['push_back_c', 'push_back_m', 'emplace_back', 'insert_c', 'insert_m', 'emplace', 'reserve', 'resize',
-              'resize_v', 'shrink', 'append_range', 'append_il']
+              'resize_v', 'shrink', 'append_range', 'append_il', 'insert_n', 'insert_range', 'insert_il']   # the last three: one element at end()
 OPS_NEED_COPY = {'push_back_c', 'insert_c', 'insert_n', 'insert_range', 'insert_il', 'resize_v', 'assign_n', 'assign_range',
                  'assign_il', 'assign_op_il', 'append_range', 'append_il', 'emplace'}
 OPS_ALIAS = ['push_back_c', 'emplace_back', 'insert_c', 'insert_n', 'emplace', 'resize_v']
 
-def ops_job(op, elem, n, cap, fmask=0, alias=0, afl=0, maxcnt=2, size=None, std='c++17', extra_defs=None, witness=None, tag='', maxsz=None, sizet=None, extra_clang=(), ce=False):
+def ops_job(op, elem, n, cap, fmask=0, alias=0, afl=0, maxcnt=2, size=None, std='c++17', extra_defs=None, witness=None, tag='', maxsz=None, sizet=None, extra_clang=(), ce=False, bigcnt=False):
     maxcap = max(2 * cap, cap + maxcnt + 2, 2)
     maxm = cap + maxcnt + 2
     defs = {'VF_ELEM': elem, 'VF_N': n, 'VF_CAP': cap, 'VF_OP': 'OP_' + op, 'VF_FMASK': fmask, 'VF_ALIAS': alias,
@@ -26,6 +26,7 @@ def ops_job(op, elem, n, cap, fmask=0, alias=0, afl=0, maxcnt=2, size=None, std=
     if size is not None: defs['VF_SIZE'] = size
     if maxsz is not None: defs['VF_MAXSZ'] = maxsz; defs['VF_AFL'] = afl | A_MAXSZ_; tag += '-M%d' % maxsz
     if sizet is not None: defs['VF_SIZET'] = sizet; tag += '-' + sizet.replace('std::', '').replace('_t', '')
+    if bigcnt: defs['VF_BIGCNT'] = 1; tag += '-bigcnt'
     if op.endswith('_il') and elem != 'int' and fmask and not (extra_defs and 'VF_B' in extra_defs):
         defs['VF_B'] = 2; tag += '-b2'   # initializer-list ops instantiate one call site per length: pin the length when faults are on
     if extra_defs: defs.update(extra_defs)
